@@ -12,7 +12,11 @@ PYTHONPATH=$wt/src timeout 120 /venv/bin/python "$out/demo.py" >/dev/null 2>&1; 
 git apply "$out/patch.diff"
 echo "$name: tests='$tests' demo_with=$demo_with demo_without=$demo_without"
 cd /verif
-res=$(SHOW=2 tools/try_patch.sh "$out/patch.diff" $pid 2>&1)
+apply="$out/patch.diff"
+# the tree has moved on (fix commits touching the same lines): use the hand-rebased equivalent if there is one
+if ! git -C /repo apply --check "$apply" 2>/dev/null && [ -s "seeded/$name/patch_rebased.diff" ]; then apply="seeded/$name/patch_rebased.diff"; fi
+basename "$apply" > /tmp/.eval_applied
+res=$(SHOW=2 tools/try_patch.sh "$apply" $pid 2>&1)
 echo "$res" | head -4 | cut -c1-300
 mkdir -p seeded/$name
 cp "$out/patch.diff" seeded/$name/patch.diff; cp "$out/demo.py" seeded/$name/demo.py; cp "$out/notes.md" seeded/$name/notes.md 2>/dev/null
@@ -24,7 +28,7 @@ notes = open(f'/verif/seeded/{name}/notes.md').read() if __import__('os').path.e
 meta = {"property": pid, "seed": name, "source": "independent sub-agent given only the property text and a scratch worktree",
         "needs_to_manifest": notes[:1500],
         "confirmed": {"repo_test_suite_with_change": tests, "demo_exit_with_change": int(dw), "demo_exit_without_change": int(dwo)},
-        "ran": f"tools/eval_seed.sh {pid} {name}  (applies patch.diff to /repo, runs check.py {pid} --tier quick, restores /repo)",
+        "applied_patch": open('/tmp/.eval_applied').read().strip() if __import__('os').path.exists('/tmp/.eval_applied') else 'patch.diff', "ran": f"tools/eval_seed.sh {pid} {name}  (applies patch.diff to /repo, runs check.py {pid} --tier quick, restores /repo)",
         "quick_check_exit_code": int(rc) if rc else None, "detected_by_quick_check": rc == "1"}
 json.dump(meta, open(f'/verif/seeded/{name}/meta.json', 'w'), indent=1)
 PY
